@@ -91,3 +91,42 @@ def sig_of(sim):
     kinds = set(f["kind"] for ep in sim.frames for f in sim.frames[ep])
     return (sim.cfg["fw"], sim.cfg["pw"], "".join(sorted(kinds)), ",".join(sorted(fates)), min(fr // 20, 6), min(dl // 10, 6),
             sim.cfg["pbA"] > S20 - 8200, sim.cfg["fbA"] > 2**32 - 8200)
+
+
+def tail_progress(ops, outs, window_s=300):
+    """Did the connection still make progress during the last `window_s` virtual seconds of the run? Progress = a packet handed to
+    an application, or a fragment put on the wire that had never been sent before, or a send-window base that moved. Used to tell
+    a connection that is slow (TFRC backed off towards its 23 B/s floor: one frame per 64 s) from one that is stalled."""
+    times = []; t = 0
+    for op in ops:
+        if op.startswith("t "):
+            t = int(op.split(" ")[1])
+        times.append(t)
+    if not times:
+        return False
+    t_end = times[-1]; t0 = t_end - window_s * 10**9
+    seen = set(); bases = {}
+    progress = False
+    for op, o, tt in zip(ops, outs, times):
+        w = op.split(" ")
+        if len(w) < 2:
+            continue
+        late = tt > t0
+        if w[1] == "recv" and o and o[0].isdigit() and int(o.split(" ")[0]) > 0 and late:
+            progress = True
+        elif w[1] == "flush" and o and o[0].isdigit():
+            for f in gen_hc.parse_frames(o):
+                if f["kind"] == "D":
+                    for d in f["dgs"]:
+                        key = (w[0], d["seq"], d["frag"], d.get("dfnv"))
+                        if key not in seen:
+                            seen.add(key)
+                            if late:
+                                progress = True
+        elif w[1] == "probe" and o.startswith("fa="):
+            p = gen_hc.parse_probe(o)
+            b = p["ps"][0]
+            if w[0] in bases and bases[w[0]] != b and late:
+                progress = True
+            bases[w[0]] = b
+    return progress
